@@ -396,7 +396,14 @@ pub fn unit_payload() -> Report {
         if v >= i64::MIN as i128 && v <= i64::MAX as i128 { is.push(v as i64); }
         let n = -(1i128 << k) + d; if n >= i64::MIN as i128 && n <= i64::MAX as i128 { is.push(n as i64); }
     } }
-    let fs: Vec<u64> = vec![0, 1, 0x8000_0000_0000_0000, 0x3ff8_0000_0000_0000, 0x7ff0_0000_0000_0000, 0xfff0_0000_0000_0000, 0x7ff8_0000_0000_0001, 0x7fef_ffff_ffff_ffff, 0x0010_0000_0000_0000, 0x000f_ffff_ffff_ffff, 0x4009_21fb_5444_2d18, u64::MAX];
+    let mut fs: Vec<u64> = vec![0, 1, 0x8000_0000_0000_0000, 0x3ff8_0000_0000_0000, 0x7ff0_0000_0000_0000, 0xfff0_0000_0000_0000, 0x7ff8_0000_0000_0001, 0x7fef_ffff_ffff_ffff, 0x0010_0000_0000_0000, 0x000f_ffff_ffff_ffff, 0x4009_21fb_5444_2d18, u64::MAX];
+    // every 29th biased exponent (subnormal .. infinity) x four mantissa patterns x both signs, plus values around the f32 range limits
+    let mut e = 0u64;
+    while e <= 0x7ff {
+        for m in [0u64, 1, 0x8_0000_2000_0001, 0xf_ffff_ffff_ffff] { for sgn in [0u64, 1] { fs.push((sgn << 63) | (e << 52) | m); } }
+        e += 29;
+    }
+    for v in [2.5e-10f64, -1e-12, 1e-300, 1e-45, 1.0000000000000002, 0.1, 16777217.0, 1e39, f32::MAX as f64 * 1.0000001, f32::MIN_POSITIVE as f64 * 0.5, f64::EPSILON, f64::EPSILON / 2.0, 3.7e-9, -3.6e-9] { fs.push(v.to_bits()); }
     let one = |t: T, rep: &mut Report| {
         let mut w = TagWriter::new(ScriptDest::default());
         let r0 = w.write(&T::M(bs::ROOT, Master::Start));
@@ -433,6 +440,35 @@ pub fn unit_payload() -> Report {
     };
     for v in us { one(T::U(bs::UINT, v), &mut rep); }
     for v in is { one(T::I(bs::INT, v), &mut rep); }
-    for b in fs { one(T::F(bs::FLT, f64::from_bits(b)), &mut rep); }
+    for b in fs.iter() { one(T::F(bs::FLT, f64::from_bits(*b)), &mut rep); }
+    // C02 from hand-made bytes (not from the writer's own output): Root{ Flt } with an 8-byte and, where exact, a 4-byte payload;
+    // Root{ UInt / Int } with zero- / sign-padded 8-byte payloads.  read -> write -> read must give the values of the first read.
+    let fix = |doc: Vec<u8>, what: String, rep: &mut Report| {
+        let (items, err) = read_back(&doc, false);
+        rep.cases += 1; rep.nontrivial += 1;
+        rep.clause("C02: a hand-encoded element (8-byte / 4-byte float, padded integer) is read by the strict iterator", err.is_none() && items.len() == 3, || format!("{} doc={} err={:?}", what, rf::hex(&doc), err));
+        if err.is_some() || items.len() != 3 { return; }
+        let mut w2 = TagWriter::new(ScriptDest::default());
+        let mut ok2 = true;
+        for it in &items { if w2.write(it).is_err() { ok2 = false; } }
+        let (items2, err2) = read_back(&w2.dest.data, false);
+        let same = ok2 && err2.is_none() && items2.len() == items.len() && items2.iter().zip(items.iter()).all(|(a, b)| rf::tag_eq(a, b));
+        rep.clause("C02: values decoded from hand-encoded elements keep their meaning when re-encoded (read -> write -> read, bit for bit)", same, || format!("{} doc={} first-read=[{}] rewritten={} second-read=[{}] err={:?}", what, rf::hex(&doc), items.iter().map(rf::show).collect::<Vec<_>>().join(","), rf::hex(&w2.dest.data), items2.iter().map(rf::show).collect::<Vec<_>>().join(","), err2));
+    };
+    for b in fs.iter() {
+        let v = f64::from_bits(*b);
+        let mut doc = vec![bs::ROOT as u8, 0x8A, bs::FLT as u8, 0x88]; doc.extend_from_slice(&b.to_be_bytes());
+        fix(doc, format!("f64 bits {:016x}", b), &mut rep);
+        let n = v as f32;
+        if (n as f64).to_bits() == *b {
+            let mut doc = vec![bs::ROOT as u8, 0x86, bs::FLT as u8, 0x84]; doc.extend_from_slice(&n.to_be_bytes());
+            fix(doc, format!("f32 bits {:08x}", n.to_bits()), &mut rep);
+        }
+    }
+    for k in (0..64u32).step_by(7) { for d in [-1i128, 0, 1] {
+        let v = (1i128 << k) + d;
+        if v >= 0 && v <= u64::MAX as i128 { let mut doc = vec![bs::ROOT as u8, 0x8A, bs::UINT as u8, 0x88]; doc.extend_from_slice(&(v as u64).to_be_bytes()); fix(doc, format!("padded u64 {}", v), &mut rep); }
+        for x in [v, -v] { if x >= i64::MIN as i128 && x <= i64::MAX as i128 { let mut doc = vec![bs::ROOT as u8, 0x8A, bs::INT as u8, 0x88]; doc.extend_from_slice(&(x as i64).to_be_bytes()); fix(doc, format!("padded i64 {}", x), &mut rep); } }
+    } }
     rep
 }
